@@ -55,6 +55,7 @@ SideRails ==
 RefLoops ==
     (Proper /\ ~ClosedPath(c)) =>
         /\ Undirected(Bd) = EndRing(0) \cup EndRing(NRings(c) - 1) \cup SideRails
+        /\ RefBoundary(c) = {ECode(c, e[1], e[2]) : e \in Bd}
         /\ \A v \in {e[1] : e \in Bd} : Cardinality({e \in Bd : e[1] = v}) = 1 /\ Cardinality({e \in Bd : e[2] = v}) = 1
 RefEuler ==
     Proper => Cardinality(Verts) - Cardinality(UEdges) + Len(T) = (IF Sheet THEN 1 ELSE 0)
